@@ -187,8 +187,13 @@ def lexer_check(ctx, gen_opts, ndefs, ninputs, projs, ctors=(0,), clone=False, n
             ins = gen.inputs(d, ninputs, max_len=max_len, ctors=ctors)
         inputs = []
         for ct, cps in ins:
-            cl = gen.rng.randrange(0, len(cps) + 3) if clone else None
-            inputs.append((ct, cps, cl))
+            if clone:
+                # several clone points per input: early ones (right after the first matches, where a switch has just
+                # happened in the stateful inputs) and a random one
+                for cl in sorted({1, 2, gen.rng.randrange(0, len(cps) + 3)}):
+                    inputs.append((ct, cps, cl))
+            else:
+                inputs.append((ct, cps, None))
         cases.append(Case(len(cases), d, inputs))
     t0 = time.time()
     run_model(cases)
@@ -606,9 +611,22 @@ def check_C10(ctx):
     lexer_check(ctx, dict(p_fallible=0.5, p_alt=0.35, max_rules=4, max_depth=2), nd, ni, ["full"], loc_check=True)
 
 
+EXPANSION_LIMIT_MS = 20000     # "macro expansion finishes within seconds" (processor time of the expanding thread)
+
+
 def check_C12(ctx):
     nd, ni = sizes(ctx, (120, 12), (1200, 16))
-    lexer_check(ctx, dict(p_ctx=0.35, p_builtin=0.15, max_rules=6, max_depth=3, max_rulesets=4), nd, ni, ["counts"])
+    usable = lexer_check(ctx, dict(p_ctx=0.35, p_builtin=0.15, max_rules=6, max_depth=3, max_rulesets=4), nd, ni, ["counts"])
+    # how long the macro itself took (the hook measures the processor time of the expanding thread, so a loaded
+    # machine does not matter); the time rustc then needs for the generated code is a different matter
+    times = [(c.impl.get("expansion_cpu_ms"), c) for c in usable if c.impl and c.impl.get("expansion_cpu_ms") is not None]
+    for ms, c in times:
+        if ms > EXPANSION_LIMIT_MS:
+            ctx.violation("slow-expansion", dict(describe(c), expansion_cpu_ms=ms, limit_ms=EXPANSION_LIMIT_MS,
+                                                 generated_code_bytes=len(c.impl.get("tokens") or "")))
+    if times:
+        ctx.coverage.setdefault("distribution", {}).update({"expansion_cpu_ms_max": max(t for t, _ in times),
+                                                            "expansions_timed": len(times)})
     check_determinism(ctx)
 
 
@@ -624,8 +642,10 @@ def check_C14(ctx):
 
 
 def check_C15(ctx):
-    nd, ni = sizes(ctx, (90, 20), (750, 40))
-    lexer_check(ctx, dict(max_rules=4, max_depth=2, p_named=0.6, p_fallible=0.4), nd, ni, ["full"], clone=True)
+    nd, ni = sizes(ctx, (90, 12), (750, 24))
+    lexer_check(ctx, dict(max_rules=4, max_depth=2, p_named=0.8, p_fallible=0.3, p_template=0.35,
+                          kinds=['inf:sw', 'inf:swret', 'simple', 'simple', 'inf:ret', 'inf:cont', 'skip', 'fal:ret']),
+                nd, ni, ["full"], clone=True)
 
 
 def four_constructors(ctx, nd, ni):
